@@ -30,7 +30,7 @@ def expected(kind, pos, joins, ds, uh, filt):
         return "no"
     if uh == "NEIGHBOR":
         return "yes" if F else "no"
-    return "NotImplementedError" if F else {"NotImplementedError", "no"}
+    return "NotImplementedError"
 
 
 def build(h, cls, pos, joins):
